@@ -75,14 +75,14 @@ let () =
         else Buffer.add_char spaced c) line;
       let toks = List.filter (fun s -> s <> "") (String.split_on_char ' ' (Buffer.contents spaced)) in
       (match toks with
-       | [] -> Buffer.add_string out "[8]"
+       | [] -> Buffer.add_string out "[-8888]"
        | name :: rest ->
          (match Hashtbl.find_opt tab name with
-          | None -> Buffer.add_string out "[8]"
+          | None -> Buffer.add_string out "[-8888]"
           | Some f ->
             let (args, left) = parse_vals rest in
-            if left <> [] then Buffer.add_string out "[9]" else print_val out (f args)))
+            if left <> [] then Buffer.add_string out "[-9999]" else print_val out (f args)))
     with Stack_overflow -> Buffer.clear out; Buffer.add_string out "[7]"
-       | _ -> Buffer.clear out; Buffer.add_string out "[9]");
+       | _ -> Buffer.clear out; Buffer.add_string out "[-9999]");
     print_string (Buffer.contents out); print_newline ()
   done with End_of_file -> ())
